@@ -40,6 +40,8 @@ type Session struct {
 	Burst  bool   `json:"burst"`
 	Silent bool   `json:"silent"` // no observer events, no steering (race-detector runs)
 	Hooks  bool   `json:"hooks"`  // record the result-map lock status at every result write
+	// BadData: every pool request also carries an entry with a nil value and one with an empty key
+	BadData bool `json:"baddata"`
 	Rules  []Rule `json:"rules"`
 	Calls  []Call `json:"calls"`
 }
@@ -197,7 +199,11 @@ func ruleText(rs []Rule) string {
 	var sb strings.Builder
 	for _, r := range rs {
 		n := r.Name
-		fmt.Fprintf(&sb, "rule \"%s\" \"desc-%s\" salience %d\nbegin\n", n, n, r.Sal)
+		if r.NoSal && r.Sal == 0 {
+			fmt.Fprintf(&sb, "rule \"%s\" \"desc-%s\"\nbegin\n", n, n) // no salience clause: salience 0
+		} else {
+			fmt.Fprintf(&sb, "rule \"%s\" \"desc-%s\" salience %d\nbegin\n", n, n, r.Sal)
+		}
 		fmt.Fprintf(&sb, "  enter(\"%s\")\n", n)
 		if strings.HasPrefix(r.Tpl, "N:") {
 			fmt.Fprintf(&sb, "  %s\n", benignSnippets[r.Tpl[2:]])
@@ -498,7 +504,12 @@ func runSession(s *Session, quiet time.Duration, seed int64, callTimeout time.Du
 					done <- oc
 				}()
 				if pool != nil {
-					oc.err, oc.keys = dispatch.PoolCall(pool, c, stag, map[string]interface{}{"stag": stag})
+					data := map[string]interface{}{"stag": stag}
+				if s.BadData {
+					data["nilv"] = nil
+					data[""] = int64(1)
+				}
+				oc.err, oc.keys = dispatch.PoolCall(pool, c, stag, data)
 				} else {
 					oc.err = dispatch.EngineCall(g, rb, c, stag)
 					oc.keys, _ = g.GetRulesResultMap()
